@@ -32,6 +32,10 @@ def composite_instances():
         (("Logarithm", ("Exponential", x, E), 2), "composite:log-exp"),
         (("Sine", ("Add", [x, ("Cosine", y)])), "composite:trig"),
         (("Add", [("Multiply", [x, y, z]), ("Negation", z), ("Constant", 0.5)]), "composite:poly3"),
+        # a compound sibling next to one that fails at zero / negatives (an evaluation that fails part-way)
+        (("Add", [("Sine", x), ("Logarithm", x, E)]), "composite:sum-with-partial-sibling"),
+        (("Multiply", [("Cosine", x), ("Reciprocal", x), ("NthPower", x, 2)]), "composite:product-with-partial-sibling"),
+        (("Minus", ("Exponential", x, 2), ("NthRoot", x, 2)), "composite:difference-with-partial-sibling"),
     ]
 
 
@@ -46,6 +50,8 @@ def judge(rep, tree, label, val, results, api):
         construct = f"{k}.at" if ":" not in label else label
         if api == "number":
             construct += "(number)"
+        if api == "at-after-other":
+            construct += " after evaluations at other points"
         if st == "unsupported":
             rep.unknown("C01.value", construct, "", f"interpreter: {r['reason']} on {r['tree']}")
         elif st == "value-differs":
@@ -88,6 +94,12 @@ def check(rep):
     for tree, label in wide_nary_instances(model, tier):
         for val in valuations(spec.variables(tree), SIGN_REGIONS):
             cases.append((tree, label, val, "at"))
+    # the same expression object evaluated earlier at other points (one of them failing where possible)
+    for tree, label in inst1 + composite_instances():
+        names = spec.variables(tree)
+        if names:
+            for val in valuations(names, coarse):
+                cases.append((tree, label, val, "at-after-other"))
     # bare-number entry point: every one-variable and zero-variable depth-1 instance
     for tree, label in inst1:
         names = spec.variables(tree)
